@@ -894,6 +894,8 @@ def rule_midpoint(ctx):
                     s0 = strip(st)
                     if s0.get("k") == "If":
                         cnd = strip(s0["c"])
+                        while cnd.get("k") in ("DropTemps", "Paren") or (cnd.get("k") == "Unary" and cnd["op"] == "!"):
+                            cnd = strip(cnd["e"])
                         if cnd.get("k") == "Binary" and cnd["op"] in (">=", "==", ">", "<=", "<") and tgt in (peel_refs(cnd["l"]).get("local"), peel_refs(cnd["r"]).get("local")):
                             if any(z.get("k") == "Assign" and peel_refs(z["l"]).get("local") == tgt for z in walk(s0["then"])):
                                 guarded = True
@@ -915,4 +917,4 @@ def rules(tier):
             precision.make_rule("R-C14-precision", lambda f: f["d"]["krate"] == "linfa_trees", 40, "linfa-trees"),
             carry.make_accessor_rule("R-C14-accessor", {"linfa_trees"}, 4), carry.make_ctor_rule("R-C14-ctor", {"linfa_trees"}, 1), rule_sampleindex, rule_maskcount,
             # the limits that reach the fit are the ones the caller set: `check` hands the checked set on unchanged
-            c04.rule_same]
+            c04.rule_same, rule_midpoint]
